@@ -19,12 +19,12 @@ CHECKS = {
     "C02": dict(engine=TV, cat="translation_validation",
                 technique="SMT definite-assignment obligations over the symbolically executed emitted C++ (z3) + encoder front-end facts; clang -fsyntax-only only as replay",
                 text="solver: no read of an unassigned translator variable on any feasible path, all events within the bound; front end: file set, executable bit, rendered = template static text + slots, one declaration per scope, member access/assignment kinds consistent with the declared data model, needed headers included",
-                note="full C++ well-formedness beyond the emitted subset is not claimed; front-end facts are marked as such in evidence",
+                note="full C++ well-formedness beyond the emitted subset is not claimed; front-end facts are marked as such in evidence; a sample of every family is also analysed as the SECOND package of one executor object; generated-name kernel (cpp_vars.unique_name -> z3 strings)",
                 ref="DESIGN.md 3/C02"),
     "C03": dict(engine=TV, cat="translation_validation",
                 technique="SMT row-binding equivalence (z3) per terminal form and element kind + schema comparison against the reference evaluator",
                 text="for every terminal form x element kind x backend: every column of every filled row equals the query's column expression for all events (binding branch->member->filled value), booked (name, depth, kind) list equals the reference schema, tree name booked=filled=descriptor, count mismatch raises",
-                note="column/tree names are concrete here (symbolic names: C18); descriptor file name compared with the literal the runner template delivers",
+                note="column/tree names are concrete here (symbolic names: C18); descriptor file name compared with the literal the runner template delivers and with the file the runner.sh shell model (engine D) delivers on every exit-0 path",
                 ref="DESIGN.md 3/C03"),
     "C04": dict(engine=TV, cat="translation_validation",
                 technique="SMT fault-equivalence obligations (z3): fault_cpp <=> query undefined, loudness, laziness under symbolic null links / empty collections",
@@ -48,28 +48,28 @@ CHECKS = {
                 ref="DESIGN.md 3/C10"),
     "C15": dict(engine=CH, cat="other",
                 technique="CrossHair bounded symbolic execution of generate_script_block against an independent topological-order reference; real template render for the insertion point",
-                text="every block list of <=2 (quick) / <=3 (thorough) blocks over B names with dependency lists <=2 over B+1 names and two script variants: ValueError exactly on conflict/missing/cycle, otherwise once-each, contiguous, ordered output",
+                text="every block list of <=2 (quick) / <=3 (thorough) blocks over B names with dependency lists <=2 over B+1 names and two script variants, plus four-entry lists with one repeated name: ValueError exactly on conflict/missing/cycle, otherwise once-each, contiguous, ordered output; the job-options template (jinja2 generated code -> z3 strings, list filters modelled) inserts symbolic lines once, in order, verbatim",
                 note="space partitioned into conditions with <=3 symbolic ints (the rest enumerated); CrossHair realises dict keys, so within the bound this is a solver-driven exhaustive exploration",
                 ref="DESIGN.md 3/C15"),
     "C16": dict(engine=SH, cat="model_checking",
                 technique="forking symbolic execution of the runner.sh bash subset with z3 (symbolic flag operands, exit statuses, filesystem facts), validated against real bash with stub tools",
                 text="all flag vectors <=2 tokens (3-4 thorough) x all single-step failures x invocation histories <=2 (3 thorough) for the three scripts: exit codes, phases run, input/destination plumbing, no exit 0 after a failed step, no fresh output after a failure",
-                note="model = vlib/sh/shx.py; sampled symbolic paths and every violating path are replayed on real bash; absolute-path branches are model-only",
+                note="model = vlib/sh/shx.py (while loops unrolled 3x, arithmetic expansion, test lists, operands relative to the caller's directory); sampled symbolic paths and every violating path are replayed on real bash; absolute-path branches are model-only",
                 ref="DESIGN.md 3/C16"),
     "C18": dict(engine=CH, cat="other", also=(STR, TV),
-                technique="CrossHair through the real translator with symbolic string constants per position + z3 obligations generated from the AST of visit_Constant (unbounded ints, float repr regex inclusion) + SMT translation validation of literal interplay",
-                text="strings of each exact length (0..1 quick, 0..2/3 thorough, all of Unicode) in every position denote themselves or are rejected; all integers accepted fit their C++ type; float literal class included in the C++ grammar; several equal-valued literals of different kind keep value and kind",
+                technique="CrossHair through the real translator with symbolic string constants per position + z3 obligations generated from the AST of visit_Constant (unbounded ints, float repr regex inclusion) and of cpp_string_literal (inductive step over all code points: every string length) + SMT translation validation of literal interplay",
+                text="strings of each exact length (0..1 quick, 0..2/3 thorough, all of Unicode) in every position denote themselves or are rejected; the literal writer alone for strings of every length (z3, inductive step); all integers accepted fit their C++ type; float literal class included in the C++ grammar; several equal-valued literals of different kind keep value and kind",
                 note="float value fidelity trusted; re.sub shim for CrossHair is part of the trusted base and self-checked",
                 ref="DESIGN.md 3/C18"),
     "C07": dict(engine=TV, cat="translation_validation",
                 technique="histories of <=2 operations replayed in freshly forked processes; probe package compared with the fresh-process package by canonical text, otherwise by SMT equivalence (z3) of the two C++ packages for all events",
                 text="for every enumerated history (success/failure x declaring method types, enums, collections, C++ functions, job scripts, injected code, docker metadata x same/new executor) and six registry-sensitive probes: same package (or same refusal) as in a fresh process",
-                note="histories longer than 2 only through the registry observation after each operation (reported, not claimed); declared names concrete",
+                note="histories longer than 2 only through the registry observation after each operation (reported, not claimed); declared names concrete; operations and probes on re-used CMS executors and across backends; text equality up to numbering required even when the packages are proven equivalent",
                 ref="DESIGN.md 3/C07"),
     "C08": dict(engine=TV, cat="translation_validation",
                 technique="variant enumeration (qastle round trip, capture-avoiding alpha-renamings incl. shadowing and special names, MetaData placement, fused vs separate chains) with canonical-text comparison and SMT equivalence (z3) of differing C++ packages for all events",
                 text="every (query, variant) pair yields the same package up to numbering, or packages proven equivalent in schema, rows and faults for all events up to N; accept/reject agrees",
-                note="'the same' is claimed at the level of observable behaviour; benign textual differences are listed in evidence",
+                note="a textual difference that the numbering of generated names does not explain is reported even when engine A proves the packages equivalent (the First() message is a listed finding)",
                 ref="DESIGN.md 3/C08"),
     "C09": dict(engine=CH, cat="other", also=(TV,),
                 technique="CrossHair on process_metadata (unknown/missing metadata_type, unknown declaration keys via a list-backed Mapping) + observed refusal of every grafted unsupported construct",
@@ -88,13 +88,13 @@ CHECKS = {
                 ref="DESIGN.md 3/C14"),
     "C17": dict(engine=CH, cat="other",
                 technique="CrossHair on the real LocalDataset classes with a stand-in python_on_whales, deterministic temp dirs and nondeterministic container outcomes",
-                text="file validation, same-directory rule, filelist order, image selection (metadata vs image:tag, symbolic strings), volumes, failure propagation at any chunk, missing result, result copy, temp dir removal - for all combinations within the bounds",
+                text="file validation, same-directory rule, filelist order, image selection (metadata vs image:tag, symbolic strings; also for the 2nd/3rd query on one dataset object), volumes, failure propagation at any chunk, missing result, result copy, temp dir removal - for all combinations within the bounds",
                 note="I/O orchestration code: decision logic under the listed stubs only; template rendering stubbed",
                 ref="DESIGN.md 3/C17"),
     "C12": dict(engine=TV, cat="translation_validation",
                 technique="SMT equivalence (z3) of the emitted call against the documented function name: interpreted rounding/remainder family, distinct uninterpreted functions otherwise; exhaustive over the README table",
                 text="every documented function x {standalone, in arithmetic, in comparison, int argument}: accepted, <cmath> included, value equals the namesake for all argument values",
-                note="libm accuracy trusted; remquo/nan have no numeric call form",
+                note="libm accuracy trusted; remquo/nan have no numeric call form; literal-argument forms included; value-changing floating-point build flags in the shipped build files are detected (witness-compiled)",
                 ref="DESIGN.md 3/C12"),
     "C13": dict(engine=TV, cat="translation_validation",
                 technique="SMT equivalence (z3) over an exhaustive operator x operand-kind table with typed C++ conversion semantics vs Python numerics",
